@@ -97,6 +97,27 @@ func (c *FCtx) bodyEnv(st *State, pos token.Pos) *CEnv {
 				}
 				if pick != nil {
 					obj = pick
+				} else {
+					// the contract's name was the counter of a loop that is now a range loop without a key: its hidden counter
+					for k, rec := range con.Names {
+						if rec != name || al[k] >= 0 || k >= len(con.NamesTag) {
+							continue
+						}
+						t := con.NamesTag[k]
+						if !(strings.HasSuffix(t, "i") || strings.HasSuffix(t, "k")) {
+							continue
+						}
+						for n, ord := range fi.Loops {
+							if fmt.Sprintf("%di", ord) != t && fmt.Sprintf("%dk", ord) != t {
+								continue
+							}
+							if ctr, ok := c.rangeCtr[n]; ok && n.Pos() <= pos && pos <= n.End() {
+								if id, ok := s.vars[ctr]; ok {
+									return s.cells[id], true
+								}
+							}
+						}
+					}
 				}
 			}
 		}
